@@ -27,17 +27,17 @@ theorem sortColumns_kinded (ob : List SortSpec) (hdr : List Field) (rows : List 
 
 /-- everything after WHERE, on kinded rows as long as the header -/
 theorem selectTail_kinded (q : Select) (fields : List Field) (ks : List Kind) (rows : List Row)
-    (hq : (∃ a, q.list = [⟨.star, a⟩]) ∨ isStar q.list = false)
+    (hq : Exec.NoPanicP.ParsedShape q)
     (hlen : ∀ r ∈ rows, r.length = fields.length) (hk : ∀ r ∈ rows, rowHas ks r = true) :
     Wp NoP (fun p => ∀ r ∈ p.1, rowHas (outKinds q.list fields ks) r = true) (SelectP.selectTail q fields rows) := by
   unfold SelectP.selectTail
-  apply Wp.bind (Wp.and_any (projectColumns_wp (E := NoP) q.list fields rows hlen)
+  apply Wp.bind (Wp.and_any (projectColumns_wp (E := NoP) q.list hq.ne_nil fields rows hlen)
     (projectColumns_kinded q.list fields ks rows hk))
   rintro ⟨rows2, hdr⟩ ⟨⟨hlen2, hstar⟩, hk2⟩
   dsimp only at hlen2 hstar hk2 ⊢
   have hagg : Wp NoP (fun out => ∀ r ∈ out, rowHas (outKinds q.list fields ks) r = true)
       (aggregateRows q.list q.groupBy rows2) := by
-    rcases hq with ⟨a, hq⟩ | hq
+    rcases hq.star with ⟨a, hq⟩ | hq
     · rw [hq] at hk2 ⊢
       refine Wp.mono (Wp.and_any (aggregateRows_star_wp (E := NoP) a q.groupBy rows2)
         (aggregateRows_star a q.groupBy rows2)) ?_ (fun _ e => e)
@@ -49,8 +49,8 @@ theorem selectTail_kinded (q : Select) (fields : List Field) (ks : List Kind) (r
         rfl
       rw [hk3] at hk2 ⊢
       refine Wp.mono (Wp.and_any (aggregateRows_wp (E := NoP) q.list q.groupBy rows2
-        (fun _ r hr => by rw [hlen2 r hr, hstar hq]))
-        (aggregateRows_kinded (fun d => itemKind fields ks d.item) q.list q.groupBy rows2
+        (fun _ => ⟨hq, fun r hr => by rw [hlen2 r hr, hstar hq]⟩))
+        (aggregateRows_kinded (fun d => itemKind fields ks d.item) q.list q.groupBy rows2 hq
           (itemKind_agg fields ks q.list) (itemKind_cond fields ks q.list) hk2)) ?_ (fun _ e => e)
       rintro out ⟨_, h⟩
       exact h
@@ -58,29 +58,43 @@ theorem selectTail_kinded (q : Select) (fields : List Field) (ks : List Kind) (r
   intro rows3 hk3
   apply Wp.bind (sortColumns_kinded q.orderBy (sortFields q.list hdr) rows3 _ hk3)
   intro rows4 hsub
+  have hcut : Wp NoP (fun rows5 => ∀ r ∈ rows5, r ∈ rows4) (cutRows q.lim rows4) := by
+    cases hc : cutRows q.lim rows4 with
+    | err e => trivial
+    | panic s => exact ((cutRows_wp (E := NoP) hq.bounds rows4).of_panic hc).elim
+    | ok rows5 =>
+      intro r hr
+      unfold cutRows at hc
+      split at hc
+      · cases hc
+      · split at hc
+        · cases hc
+        · cases hc
+          split at hr
+          · have hr := List.mem_of_mem_take hr
+            split at hr
+            · exact List.mem_of_mem_drop hr
+            · exact hr
+          · split at hr
+            · exact List.mem_of_mem_drop hr
+            · exact hr
+  apply Wp.bind hcut
+  intro rows5 hsub5
   simp only [Wp_pure]
   intro r hr
-  apply hk3 r (hsub r ?_)
-  split at hr
-  · have hr := List.mem_of_mem_take hr
-    split at hr
-    · exact List.mem_of_mem_drop hr
-    · exact hr
-  · split at hr
-    · exact List.mem_of_mem_drop hr
-    · exact hr
+  exact hk3 r (hsub r (hsub5 r hr))
 
 /-- **A SELECT over kinded tables never panics, and every column of its result holds values of one kind
 or NULL.**  `hq`: the shape of the select lists the parser builds (the hypothesis of
 `C18_no_panic_partial`). -/
 theorem evaluateSelect_kinded {fetch : Bytes → Option Table} (hk : KindedFetch fetch) (q : Select)
-    (hq : (∃ a, q.list = [⟨.star, a⟩]) ∨ isStar q.list = false) :
+    (hq : Exec.NoPanicP.ParsedShape q) :
     Wp NoP (fun p => ∃ ks : List Kind, ∀ r ∈ p.1, rowHas ks r = true) (evaluateSelect fetch q) := by
   cases hf : q.from_ with
   | none =>
     unfold evaluateSelect
     rw [hf]
-    refine Wp.mono (Wp.and_any (projectColumns_wp (E := NoP) q.list [] [[]] ?_)
+    refine Wp.mono (Wp.and_any (projectColumns_wp (E := NoP) q.list hq.ne_nil [] [[]] ?_)
       (projectColumns_kinded q.list [] [] [[]] ?_)) (fun p hp => ⟨_, hp.2⟩) (fun _ e => e)
     · intro r hr
       simp only [List.mem_singleton] at hr
@@ -109,7 +123,7 @@ theorem evaluateSelect_kinded {fetch : Bytes → Option Table} (hk : KindedFetch
 
 /-- a SELECT over kinded tables never panics -/
 theorem evaluateSelect_no_panic {fetch : Bytes → Option Table} (hk : KindedFetch fetch) (q : Select)
-    (hq : (∃ a, q.list = [⟨.star, a⟩]) ∨ isStar q.list = false) (s : String) :
+    (hq : Exec.NoPanicP.ParsedShape q) (s : String) :
     evaluateSelect fetch q ≠ .panic s :=
   (evaluateSelect_kinded hk q hq).not_panic s
 
